@@ -117,7 +117,8 @@ def t_symbolic():
         b.seek(0)
         b.write(bytes([y]))
         v = b.getvalue()
-        return v == bytes([y]) + b"z" and (x in b"01") == (x == 48 or x == 49)
+        pc = b"%c" % (x)  # E3b
+        return v == bytes([y]) + b"z" and (x in b"01") == (x == 48 or x == 49) and pc == bytes([x]) and len(pc) == 1
 
     for fn, pre in ((f1, lambda x: 0 <= x <= 999), (f2, lambda x: 0 <= x < 65536),
                     (f3, lambda x, y: 0 <= x < 256 and 0 <= y < 256), (f4, lambda x, y: 0 <= x < 256 and 0 <= y < 256)):
